@@ -83,6 +83,46 @@ def run(ctx: Context) -> None:
     def show(conds):
         return [(norm_text(t), pol) for t, pol in conds]
 
+    def carried_memory(step: ast.AST, what: str) -> None:
+        """Each entry of the list is normalised for itself: the only thing one entry learns from the entries before it is the
+        working copy.  A condition on a step that reads a collection filled while the list is walked is therefore only
+        acceptable as "this very coordinate (by name) was handled already", which skips nothing that would change anything."""
+        from .common import path_conditions as _pcs
+        loops = [n for n in walk_no_nested(fi.node) if isinstance(n, ast.For) and any(x is step for x in ast.walk(n))]
+        if not loops:
+            ctx.check('R13.5', False, f"{what} happens once per listed coordinate", fi, step)
+            return
+        loop = loops[0]
+        grown: dict[str, list[ast.AST]] = {}
+        for n in ast.walk(loop):
+            if isinstance(n, ast.Call) and isinstance(n.func, ast.Attribute) and isinstance(n.func.value, ast.Name) \
+                    and n.func.attr in ('add', 'append', 'update', 'extend', 'insert', 'setdefault', 'discard', 'remove', 'pop'):
+                grown.setdefault(n.func.value.id, []).append(n)
+            if isinstance(n, ast.Subscript) and isinstance(n.ctx, ast.Store) and isinstance(n.value, ast.Name):
+                grown.setdefault(n.value.id, []).append(n)
+            if isinstance(n, ast.AugAssign) and isinstance(n.target, ast.Name):
+                grown.setdefault(n.target.id, []).append(n)
+        # only what lives across iterations: defined before the loop
+        before = {t.id for st in walk_no_nested(fi.node) if isinstance(st, (ast.Assign, ast.AnnAssign)) and st.lineno < loop.lineno
+                  for t in ast.walk(st) if isinstance(t, ast.Name) and isinstance(t.ctx, ast.Store)}
+        memory = {k for k in grown if k in before and kind(ast.Name(id=k, ctx=ast.Load())) != 'copy' and not dataset_like(next(
+            (x for x in ast.walk(loop) if isinstance(x, ast.Name) and x.id == k and isinstance(x.ctx, ast.Load)), ast.Name(id=k, ctx=ast.Load())))}
+
+        def coordinate_name(e) -> bool:
+            c = flow.canon(e)
+            return isinstance(c, tuple) and c[0] == 'attr' and c[2] == 'name'
+        bad = []
+        for t, pol in _pcs(fi, step):
+            used = {x.id for x in ast.walk(t) if isinstance(x, ast.Name)} & memory
+            for k in used:
+                fine = (isinstance(t, ast.Compare) and len(t.ops) == 1 and isinstance(t.ops[0], (ast.In, ast.NotIn)) and norm_text(t.comparators[0]) == k
+                        and coordinate_name(t.left)
+                        and all(isinstance(g_, ast.Call) and g_.func.attr in ('add', 'append') and len(g_.args) == 1 and coordinate_name(g_.args[0]) for g_ in grown[k]))
+                if not fine:
+                    bad.append(f"`{norm_text(t)}` reads `{k}`, filled while the list is walked")
+        ctx.check('R13.5', not bad, f"{what} does not depend on which other coordinates were listed before this one (two coordinates on one dimension each have their own sign; "
+                  "only the same coordinate listed again may be recognised, by its name)", fi, step, construct=f"{what}: {bad[0] if bad else 'no condition on earlier entries'}")
+
     def dataset_like(e, seen=None) -> bool:
         """e denotes a whole dataset derived from the copy (not one of its variables)."""
         seen = set() if seen is None else seen
@@ -151,6 +191,7 @@ def run(ctx: Context) -> None:
             conds = positive_conditions(fi, n)
             other = differs(conds, PD)
             ok = requested(conds, PD) and other is not None
+            carried_memory(n, "the negation of values")
             ctx.check('R13.5', ok, "values are negated only when a sign is requested and differs from the data's", fi, n,
                       construct=f"negation `{norm_text(n)}` under {show(conds)}")
             if isinstance(other, ast.Name):
@@ -285,6 +326,7 @@ def run(ctx: Context) -> None:
                 seen_vals.add(const_value(v, None))
             holder = flow.resolve(n.targets[0].value)
             on_copy = isinstance(holder, ast.Attribute) and holder.attr == 'attrs' and kind(holder.value) == 'copy'
+            carried_memory(n, "the rewrite of the positive attribute")
             ctx.check('R13.5', requested(conds, PD) and ok_v and on_copy,
                       "the positive attribute of the copy is rewritten only when positive_down is given: 'down' if positive_down else 'up'", fi, n,
                       construct=f"{norm_text(n)} under {show(conds)}")
@@ -406,6 +448,7 @@ def run(ctx: Context) -> None:
         rc, rd = revs[0]
         conds = positive_conditions(fi, rc)
         other = differs(conds, D2S)
+        carried_memory(rc, "the reversal")
         ctx.check('R13.5', requested(conds, D2S) and other is not None, "the reversal happens only when an ordering is requested and differs from the data's", fi, rc,
                   construct=f"reversal under {show(conds)}")
         dim_c = flow.canon(rd.keys[0])
@@ -503,6 +546,10 @@ from ..variants import V  # noqa: E402
 
 _D = 'src/emsarray/operations/depth.py'
 VARIANTS = [
+    V('C13', 'second-coordinate-of-a-dimension-skipped', _D, "    new_dataset = dataset.copy()\n    for variable in depth_coordinates:\n        variable = utils.name_to_data_array(dataset, variable)\n        name = variable.name\n",
+      "    new_dataset = dataset.copy()\n    seen = set()\n    for variable in depth_coordinates:\n        variable = utils.name_to_data_array(dataset, variable)\n        name = variable.name\n        if variable.dims[0] in seen:\n            continue\n        seen.add(variable.dims[0])\n", 'R13.5'),
+    V('C13', 'benign-same-coordinate-listed-twice-recognised-by-name', _D, "    new_dataset = dataset.copy()\n    for variable in depth_coordinates:\n        variable = utils.name_to_data_array(dataset, variable)\n        name = variable.name\n",
+      "    new_dataset = dataset.copy()\n    seen = set()\n    for variable in depth_coordinates:\n        variable = utils.name_to_data_array(dataset, variable)\n        name = variable.name\n        if name in seen:\n            continue\n        seen.add(name)\n", None),
     V('C13', 'positive-case-sensitive', _D, "(str(positive_attr).lower() == 'down')", "(positive_attr == 'down')", 'R13.2'),
     V('C13', 'writes-input-attr', _D, "            new_variable.attrs['positive'] = 'down' if positive_down else 'up'", "            variable.attrs['positive'] = 'down' if positive_down else 'up'", 'R13.1'),
     V('C13', 'no-copy', _D, "    new_dataset = dataset.copy()", "    new_dataset = dataset", 'R13.1'),
